@@ -49,7 +49,32 @@ def parseOp : Sexp → Option Op
   | .list [.atom "kill", _] => some .churn
   | .list [.atom "new", _] => some .churn
   | .list [.atom "sweep"] => some .churn
+  -- `(falsy o)` / `(truthy o)`: instance `o` of a class with its own `__len__` / `__bool__` becomes falsy / truthy
+  | .list [.atom "falsy", _] => some .churn
+  | .list [.atom "truthy", _] => some .churn
   | _ => none
+
+/-- F-C15-2 is repaired in /repo (`is not None` instead of truthiness): the gate is off; `before_fix=` shows the old
+behaviour -/
+def truthinessGate : Bool := false
+
+/-- the history as the gated code sees it: a write whose owner or element is falsy at that moment stores without
+asserting (`storeOnly` / `assignQ`) -/
+def gateOps (raw : List Sexp) (ops : List Op) : List Op :=
+  ((raw.zip ops).foldl (fun (acc : List Nat × List Op) (ro : Sexp × Op) =>
+    let F := acc.1
+    match ro.1 with
+    | .list [.atom "falsy", o] => (match o.asNat? with | some o => (o :: F, acc.2 ++ [ro.2]) | none => (F, acc.2 ++ [ro.2]))
+    | .list [.atom "truthy", o] => (match o.asNat? with | some o => (F.filter (· != o), acc.2 ++ [ro.2]) | none => (F, acc.2 ++ [ro.2]))
+    | _ =>
+      let op' := match ro.2 with
+        | .set1 f s t => if F.contains s || F.contains t then Op.storeOnly f s t else ro.2
+        | .add f s t => if F.contains s || F.contains t then Op.storeOnly f s t else ro.2
+        | .assign f s xs =>
+          let muted := if F.contains s then xs else xs.filter F.contains
+          if muted.isEmpty then ro.2 else Op.assignQ f s xs muted
+        | o => o
+      (F, acc.2 ++ [op'])) ([], [])).2
 
 /-- the instances that die during the history -/
 def killed (ops : List Sexp) : List Nat :=
@@ -75,7 +100,9 @@ def showFields (S : Schema) (W : World) (dead : List Nat) (content : Nat → Nat
   let items := (List.range S.fields.length).flatMap fun f =>
     ((List.range W.size).filter fun o => S.applies f (W.clsOf o) && !dead.contains o).map fun o =>
       match S.kindOf f with
-      | .single => s!"{f}.{o}~" ++ "|".intercalate ((targetsOf g f o).map toString)
+      -- admissible values of a single-valued field: the targets of its relations, and what the model's store holds
+      -- (a value stored without a relation, F-C15-2, is still the value of the field)
+      | .single => s!"{f}.{o}~" ++ "|".intercalate ((hashOrder (targetsOf g f o ++ content f o)).map toString)
       | _ => s!"{f}.{o}=" ++ ",".intercalate ((hashOrder (content f o)).map toString)
   "F[" ++ ";".intercalate items ++ "]"
 
@@ -92,13 +119,20 @@ def run (s : Sexp) : String :=
       let deadOk := dead.all fun o => (asserted ops).all (fun r => r.2.1 != o && r.2.2 != o) && !W.rt.contains (some o)
       if !(inRange S W ops && deadOk && ops.all (·.wellKinded S.kindOf) && W.rt.all (fun r => match r with | some x => x < W.size | none => true))
       then "error=ill-formed-case" else
-      let σ := runModel S W ops
-      let model := showRels σ.g ++ "|" ++ showFields S W dead (fun f o => σ.st f o) σ.g
+      let gated := gateOps ((Sexp.field? items "ops").getD []) ops
+      let out (os : List Op) : String × Bool :=
+        let σ := runModel S W os
+        (showRels σ.g ++ "|" ++ showFields S W dead (fun f o => σ.st f o) σ.g, σ.clob)
       let cl := closure (schemaRules S W) (fuelFor S W) (asserted ops)
       let spec := if cl.2 then showRels cl.1 ++ "|" ++ showFields S W dead (fun f o => targetsOf cl.1 f o) cl.1
                   else "spec-diverged"
-      let trig := if σ.clob then "F-C15-1" else ""
-      s!"model={model}\tspec={spec}\ttrig={trig}"
+      if truthinessGate then
+        let m := out gated
+        let trig := (if m.2 then ["F-C15-1"] else []) ++ (if gated != ops then ["F-C15-2"] else [])
+        s!"model={m.1}\tspec={spec}\ttrig={",".intercalate trig}\tmodel_fixed={(out ops).1}"
+      else
+        let m := out ops
+        s!"model={m.1}\tspec={spec}\ttrig={if m.2 then "F-C15-1" else ""}\tbefore_fix={(out gated).1}"
     | _, _, _ => "error=bad-case"
   | _ => "error=bad-case"
 
